@@ -51,7 +51,8 @@ ReadChunk ==
      IF RemapCodes
      THEN /\ cats' = Merge(cats, g.dict)
           /\ codes' = codes \o [r \in DOMAIN g.codes |-> Pos(Merge(cats, g.dict), g.dict[g.codes[r]])]
-     ELSE /\ cats' = g.dict                    \* catdef._set_categories(dic, fastpath=True)
+     ELSE /\ cats' = IF g.codes = <<>> THEN cats ELSE g.dict     \* catdef._set_categories(dic, fastpath=True); a row
+                                                                  \* group without rows is skipped, its dictionary never read
           /\ codes' = codes \o g.codes
   /\ i' = i + 1 /\ UNCHANGED <<rgs, pc>>
 EndRead == pc = "read" /\ i > Len(rgs) /\ pc' = "done" /\ UNCHANGED <<rgs, i, cats, codes>>
